@@ -22,7 +22,8 @@ TIERS = {"quick": dict(cases=900, shards=8, case_timeout=300, shard_timeout=1500
          "thorough": dict(cases=9000, shards=16, case_timeout=300, shard_timeout=3400)}
 FLOORS = {"quick": {"direct_values_checked": 1200, "mixed_state_values_checked": 600, "algebra_checks": 1000,
                     "run_values_recomputed": 800, "result_time_sets_checked": 400,
-                    "off_grid_times_with_full_default": 20},
+                    "off_grid_times_with_full_default": 20,
+                    "call_time_sets_checked_long_emulations": 20},
           "thorough": {"direct_values_checked": 20000, "off_grid_times_with_full_default": 300}}
 EIG = {2: [("r", "g"), ("g", "h"), ("u", "d")], 3: [("r", "g", "h")], 4: [("r", "g", "h", "x")]}
 ONE = {("r", "g"): "r", ("g", "h"): "h", ("u", "d"): "d"}
@@ -342,7 +343,49 @@ def w_run(ctx, rng, idx):
     ctx.mark_nontrivial(("run", n, basis, noise, str(defaults), tuple(own), tuple(own2)))
 
 
+def w_call_times(ctx, rng, idx):
+    """Observable.__call__ fed with solver steps one nanosecond apart around requested times, for emulations lasting
+    from 1 us to 2 ms: a value is stored for a step only if it lies within half a nanosecond of a requested time."""
+    from pulser.backend import default_observables as DO
+    from pulser.backend.config import EmulationConfig
+    from pulser.backend.results import Results
+    from pulser_simulation import QutipOperator, QutipState
+
+    T = gen.pick(rng, [1000, 20_000, 200_000, 200_000, 2_000_000])
+    own = sorted(rng.sample([0.1, 0.25, 0.5, 0.6180339887, 0.9, 1.0], rng.randint(1, 3)))
+    defaults = gen.pick(rng, [[1.0], [0.5, 1.0], [0.3]])
+    obs = gen.pick(rng, [DO.StateResult, DO.Energy, DO.Occupation])(evaluation_times=own)
+    cfg = EmulationConfig(observables=(obs,), default_evaluation_times=tuple(defaults))
+    state = QutipState.from_state_amplitudes(eigenstates=("r", "g"), amplitudes={"g": 0.6, "r": 0.8})
+    ham = QutipOperator.from_operator_repr(eigenstates=("r", "g"), n_qudits=1, operations=[(1.0, [])])
+    res = Results(atom_order=("q0",), total_duration=T)
+    ctx.case = {"call_times": {"total_duration": T, "own": own, "defaults": defaults, "observable": type(obs).__name__}}
+    steps = sorted({min(1.0, max(0.0, t + k / T)) for t in set(own) | set(defaults) for k in range(-3, 4)})
+    for t in steps:
+        obs(cfg, t, state, ham, res)
+    try:
+        stored = [float(t) for t in res.get_result_times(obs)]
+    except Exception:
+        stored = []
+    ctx.count("call_time_sets_checked")
+    if T >= 100_000:
+        ctx.count("call_time_sets_checked_long_emulations")
+    requested = sorted(set(own) | set(defaults))  # (own times plus the defaults: known finding 'result-times:own')
+    stray = [t for t in stored if min(abs(t - q) for q in requested) > 0.5 / T * (1 + 1e-6)]
+    missing = [q for q in own if not any(abs(t - q) <= 0.5 / T * (1 + 1e-6) for t in stored)]
+    ctx.mark_nontrivial(("calltimes", T, tuple(own), tuple(defaults), type(obs).__name__))
+    if stray:
+        ctx.violation("result-times", f"{obs.tag}: with steps 1 ns apart in an emulation of {T} ns, values were stored at "
+                      f"{[round((t - min(requested, key=lambda q: abs(q - t))) * T, 2) for t in stray][:5]} ns from the "
+                      f"closest requested time (requested {requested})", "result-times-stray:" + ("long" if T >= 100_000 else "short"))
+    if missing:
+        ctx.violation("result-times", f"{obs.tag}: nothing stored at the requested {missing} (emulation of {T} ns)",
+                      "result-times-missing:own")
+
+
 def run_case(ctx, idx, rng, tier):
+    if idx % 9 == 4:
+        return w_call_times(ctx, rng, idx)
     w = idx % 3
     if w == 0:
         w_direct(ctx, rng, idx)
